@@ -274,7 +274,7 @@ theorem solve_step (p : Params α) (f : Nat → List α → Option α) (refine :
     rcases hcase with ⟨rfl, -⟩ | ⟨rfl, -⟩ <;> simp [idsOf_append, idsOf_endEach, idsOf]
   rcases hcase with ⟨rfl, rfl, -, -, psj, hj, hc⟩ | ⟨rfl, rfl, -, psj, pe, e, hj, herr, hc⟩
   · obtain ⟨c1, c2, c3, c4, -⟩ := iterN_counters hj
-    obtain ⟨k1, k2, -, k4⟩ := PState.core_eq_iff.1 hc
+    obtain ⟨k1, k2, -, k4, -⟩ := PState.core_eq_iff.1 hc
     have hXn : X.nTrials = psj.nTrials := by simp [PState.nTrials, k1]
     refine ⟨a, a, a, _, by rw [hl]; simp, hnb, hidsOf, .inl rfl, fun h => hends h, ?_, ?_, ?_, ?_, ?_, ?_, fun h => h, ?_⟩
     · rw [hnt, hXn, c2]
@@ -303,7 +303,7 @@ theorem solve_step (p : Params α) (f : Nat → List α → Option α) (refine :
       · exact h
   · obtain ⟨c1, c2, c3, c4, -⟩ := iterN_counters hj
     obtain ⟨e1, e2, -, e4, -, e5, -⟩ := oneIteration_error_counters herr
-    obtain ⟨k1, k2, -, k4⟩ := PState.core_eq_iff.1 hc
+    obtain ⟨k1, k2, -, k4, -⟩ := PState.core_eq_iff.1 hc
     have hXn : X.nTrials = pe.nTrials := by simp [PState.nTrials, k1]
     have hnone : X.m = none → ps.m = none ∧ j = 0 ∧ X.calls = ps.calls + 1 := by
       intro h0
